@@ -38,7 +38,7 @@ def cases(tier, seed):
         defs += [with_sensors(d) for d in space.family_ops("quick") if len(d["state"]) == 2][::3]
     for i, d in enumerate(defs):
         for cse in (True, False):
-            for k in (None, 5.0, 0.5):
+            for k in ((None, 5.0, 0.5) if tier == "quick" else (None, 5.0, 0.5, 2.718281828459045)):
                 if tier == "quick" and (i + (1 if cse else 0) + [None, 5.0, 0.5].index(k)) % 2:
                     continue  # quick: half of the configuration matrix per program, every value of every axis still occurs
                 yield {"def": d, "cse": cse, "k": k, "seed": seed, "depth": 3}
